@@ -8,6 +8,7 @@ Line-protocol driver for C18.  All fields are decimal naturals separated by sing
   EB|ER limit n peer*n                                ExpireBodies / ExpireReceipts         -> exp=p:n,..
   V limit peer                                        Revoke                                -> ok
   X limit                                             Results(false)                        -> res=hash/tx/rc,..
+  Z limit offset fast                                 Close + Reset + Prepare (new sync cycle)  -> ok
 Every answer is followed by " # " and the canonical dump of the state (computed with the given limit).
 -/
 import YouVerif.C18.Model
@@ -77,6 +78,7 @@ def exec (s : State) (op : String) (args : List Nat) : Option (State Ã— String Ã
     let out := out.mergeSort (fun a b => a.1 â‰¤ b.1)
     some (s', "exp=" ++ joinWith "," (out.map fun (p, c) => s!"{p}:{c}"), limit)
   | "V", [limit, peer] => some (revoke s peer, "ok", limit)
+  | "Z", [limit, off, fast] => some (reset s off (fast != 0), "ok", limit)
   | "X", [limit] =>
     let (s', rs) := results s
     let show1 (r : Result) := s!"{r.header.hash}/{r.txs.getD 0}/{r.rcs.getD 0}"
